@@ -12,7 +12,7 @@ RULE = ("isvalidaa / isvalidcdr3 on every string up to length 4 over {C,A,F,W,x,
         "non-trivial = a cell that standardisation changes / a key present in only some tables")
 ASSUMPTIONS = ["tidytcells is the oracle for what a cell standardises to (property wording); what is decided is option routing, cell locality and input preservation",
                "multimerge tables have unique keys per table; without suffixes the value columns have distinct names"]
-REQUIRED_CLASSES = {"all": ["same-text-in-tr-and-mhc-column", "empty-string", "non-string-object", "missing-cell", "junk-cell", "option-sensitive-cell", "col_mapper", "shifted-index", "extra-column", "merge-on-column", "merge-suffixes", "merge-partial-keys"]}
+REQUIRED_CLASSES = {"all": ["df_old-keyword", "same-text-in-tr-and-mhc-column", "empty-string", "non-string-object", "missing-cell", "junk-cell", "option-sensitive-cell", "col_mapper", "shifted-index", "extra-column", "merge-on-column", "merge-suffixes", "merge-partial-keys"]}
 MIN_OUTCOMES = 10
 AA = set("ACDEFGHIKLMNPQRSTVWY")
 
@@ -203,7 +203,12 @@ def _check_rows(acc, case):
     if o["mapper"]:
         kw["col_mapper"] = {src_names[c]: c for c in cols}
         acc.cls("col_mapper")
-    r = acc.call(pyrepseq.standardize_dataframe, df, suppress_warnings=True, **kw)
+    via_old = (n + len(cols) + sum(len(str(v)) for v in o.values())) % 3 == 0     # a third of the cases go through the deprecated df_old= keyword
+    if via_old:
+        acc.cls("df_old-keyword")
+        r = acc.call(pyrepseq.standardize_dataframe, df_old=df, suppress_warnings=True, **kw)
+    else:
+        r = acc.call(pyrepseq.standardize_dataframe, df, suppress_warnings=True, **kw)
     what = "multi-row" if multi else ("one-cell" if len(cols) == 1 else "one-row")
     if raised(r):
         acc.fail("standardize_dataframe/%s/raised-%s" % (what, r.type), case, "a table", r)
@@ -258,7 +263,7 @@ def _check_merge(acc, case):
     inter = sorted(set(keysets[0]).intersection(*keysets[1:]))
     if union != inter:
         acc.cls("merge-partial-keys")
-    for on in ("index", "k"):
+    for on in ("index", "k", "x", "in"):         # a key column may have any name, e.g. one that is a substring of "index"
         for suff in (None, ["s%d" % i for i in range(nt)]):
             for how in (None, "inner"):
                 dfs = []
@@ -267,11 +272,11 @@ def _check_merge(acc, case):
                     # keys deliberately not sorted inside a table
                     kk = list(ks)[::-1]
                     d = pd.DataFrame({vname: [10 * ti + k for k in kk]}, index=pd.Index(kk, name=None))
-                    if on == "k":
-                        d = pd.DataFrame({"k": kk, vname: [10 * ti + k for k in kk]})
+                    if on != "index":
+                        d = pd.DataFrame({on: kk, vname: [10 * ti + k for k in kk]})
                     dfs.append(d)
                 snaps = [d.copy(deep=True) for d in dfs]
-                if on == "k":
+                if on != "index":
                     acc.cls("merge-on-column")
                 if suff:
                     acc.cls("merge-suffixes")
@@ -283,15 +288,15 @@ def _check_merge(acc, case):
                 keys = inter if how == "inner" else union
                 names = ["v_s%d" % i for i in range(nt)] if suff else ["v%d" % i for i in range(nt)]
                 exp = {k: tuple((10 * ti + k) if k in keysets[ti] else None for ti in range(nt)) for k in keys}
-                key = "multimerge/on-%s/%s/%s" % ("index" if on == "index" else "column", "suffixes" if suff else "no-suffixes", how or "default-outer")
+                key = "multimerge/on-%s/%s/%s" % ("index" if on == "index" else ("column" if on == "k" else "column-named-" + on), "suffixes" if suff else "no-suffixes", how or "default-outer")
                 rc = ("merge", keysets)
                 if raised(r):
                     acc.fail(key + "/raised-" + r.type, rc, exp, r)
                     return
                 try:
-                    if on == "k" and not suff:
-                        got_keys = list(r["k"])
-                        body = r.drop(columns=["k"])
+                    if on != "index" and not suff:
+                        got_keys = list(r[on])
+                        body = r.drop(columns=[on])
                     else:
                         got_keys = list(r.index)
                         body = r
